@@ -234,7 +234,7 @@ func Build(config string) core.BuildFunc {
 		if sc.T7Short {
 			t7 = 400 * time.Millisecond
 		}
-		o := rig.Opts{Active: sc.Active, Equip: sc.Equip, T3: 5 * time.Second, T6: 60 * time.Second, T7: t7, SessionID: &sess,
+		o := rig.Opts{TraceTraffic: w.T.Choose("trace", 4) == 0, Active: sc.Active, Equip: sc.Equip, T3: 5 * time.Second, T6: 60 * time.Second, T7: t7, SessionID: &sess,
 			T5: 4 * time.Second, BackoffInit: 3 * time.Second, BackoffMult: 1, CloseTimeout: 2 * time.Second}
 		if sc.Burst {
 			o.QueueSize = sc.Queue
